@@ -94,6 +94,9 @@ func judgeX(rec *ev.Rec, scalar, point []byte, path string) bool {
 		if bad == "" {
 			// array API agrees as well
 			var d1, d2, in, base [32]byte
+			for i := range d1 {
+				d1[i], d2[i] = 0xa5, 0xff // destination arrays with old content
+			}
 			copy(in[:], scalar)
 			copy(base[:], point)
 			x25519.ScalarMult(&d1, &in, &base)
